@@ -129,7 +129,8 @@ func checkMultiCase(st *Stats, mc *MultiCase) string {
 	}
 	ans := CallMulti(req)
 	if ans.ProcessDeath != "" {
-		st.ForeignAnomaly("C07", mc)
+		owner, _ := anomaly(&vrun.Answer{ProcessDeath: ans.ProcessDeath}) // C07, or the SDK's plugin-side panic
+		st.ForeignAnomaly(owner, mc)
 		return ""
 	}
 	if ans.PreparePanic != "" {
